@@ -95,6 +95,12 @@ func checkScript(s tsgen.Script) *vt.Fail {
 		}
 		return nil
 	}
+	if strings.Contains(sub.Log, "text file busy") {
+		// (ETXTBSY on a program the script has just installed: some other goroutine of this process forked while the file was
+		// open for writing. The operating system's doing; such a run says nothing about the script.)
+		rec.Class("script:installed-program-busy-skipped", 1)
+		return nil
+	}
 	if sub.Verdict == "panic" {
 		return vt.Failf("panic-escaped-runt", "a panic escaped the script run: %s%s", sub.Panic, ctx)
 	}
@@ -214,7 +220,7 @@ func metaScript(s tsgen.Script) vt.Meta {
 }
 
 func genOpts() tsgen.Options {
-	return tsgen.Options{MaxLines: 25, FailProb: 60, Exec: true, Background: true, Custom: true, AllowChmod2: true}
+	return tsgen.Options{MaxLines: 25, FailProb: 60, Exec: true, Background: true, Custom: true, AllowChmod2: true, Tools: true}
 }
 
 func reduceScript(s tsgen.Script) []tsgen.Script {
@@ -435,7 +441,7 @@ func TestCLI(t *testing.T) {
 		rec.Infra("testscript binary not built: %v", err)
 		t.Skip()
 	}
-	o := tsgen.Options{MaxLines: 12, FailProb: 50, Exec: true, Background: true, NoParams: true}
+	o := tsgen.Options{MaxLines: 12, FailProb: 50, Exec: true, Background: true, NoParams: true, Tools: true}
 	vt.Run(t, rec, vt.Prop[cliCase]{Kind: "cli", Gen: func(t *rapid.T) cliCase {
 		c := cliCase{Continue: rapid.IntRange(0, 3).Draw(t, "continue") == 0}
 		c.Flags = rapid.SliceOfNDistinct(rapid.SampledFrom([]string{"-v", "-work", "-e=CLI_ONLY"}), 0, 3, rapid.ID[string]).Draw(t, "flags")
